@@ -208,7 +208,7 @@ fn next_choice() -> Option<u64> {
     FLAVOUR.with(|f| { let (salt, n) = f.get(); if salt == 0 { return None; } f.set((salt, n + 1));
         let mut z = salt.wrapping_add(n.wrapping_mul(0x9E3779B97F4A7C15)); z = (z ^ (z >> 30)).wrapping_mul(0xBF58476D1CE4E5B9); z = (z ^ (z >> 27)).wrapping_mul(0x94D049BB133111EB); Some(z ^ (z >> 31)) })
 }
-fn flavoured(bytes: Bytes) -> Bytes {
+pub fn flavoured(bytes: Bytes) -> Bytes {
     let Some(r) = next_choice() else { return bytes };
     let mut b = bytes.to_vec();
     let typ = b.get(5).copied().unwrap_or(255);
